@@ -60,12 +60,18 @@ var smallLens = []int{0, 1, 14, 60, 577, 1400, 1499, 1500}
 var bigLens = []int{1501, 1514, 4000, 9000}
 
 var progress atomic.Int64
+var ticks racerep.Ticks // progress inside the stress loop, per goroutine (no shared atomic between workers)
 
 func watchdog(tr *vh.Trace) {
 	last, stuck := int64(-1), 0
+	lastTick := int64(-1)
 	for {
 		time.Sleep(time.Second)
 		cur := progress.Load()
+		if tk := ticks.Sum(); cur == last && tk != lastTick {
+			lastTick, stuck = tk, 0
+			continue
+		}
 		if cur == last {
 			stuck++
 		} else {
@@ -292,6 +298,9 @@ func runStress(tr *vh.Trace, st *stats, fx []corpus.Fixture, seed uint64, sc, g,
 					}
 					held = append(held, hp{p, d})
 					out[gi].ops++
+					if i&63 == 0 {
+						ticks.Tick(gi)
+					}
 					for len(held) > r.Intn(3) {
 						k := r.Intn(len(held))
 						h := held[k]
